@@ -505,6 +505,8 @@ impl Report {
                 None => new_viols.push(v.clone()),
             }
         }
+        new_viols.sort_by_key(|v| v.replay.to_string().len());
+        new_viols.truncate(8);
         let mach = self.machinery_errors.lock().unwrap().clone();
         let capped = self.capped.lock().unwrap().clone();
         let mut cov = self.coverage.lock().unwrap().clone();
@@ -596,7 +598,7 @@ fn merge_value(key: &str, a: &Value, b: &Value) -> Value {
         (Value::Array(x), Value::Array(y)) => {
             let mut v = x.clone();
             for e in y {
-                if v.len() < 24 && !v.contains(e) {
+                if (key.starts_with("set_") || v.len() < 24) && !v.contains(e) {
                     v.push(e.clone());
                 }
             }
